@@ -241,7 +241,9 @@ def option_named_input_pair(rng):
         sub = {"k": "sub", "name": "box2", "prog": {"name": "box2", "nodes": [sub], "bind": {}}}
     rest = [] if len(inner_nodes) == 2 else [copy.deepcopy(g)]
     nested = {"name": "g", "nodes": [sub] + rest, "bind": {}}
-    if rng.random() < 0.3:
+    if rng.random() < 0.3 and nm != "self":
+        # (Graph.bind(self, **values) cannot take a keyword called `self`: a limit of the call syntax that hits the
+        # flat and the nested build alike - not a composition matter, so that one name is never bound here)
         flat["bind"] = {nm: f"bound:{nm}"}
         nested["bind"] = {nm: f"bound:{nm}"}
     return flat, nested, {"S": [n["name"] for n in inner_nodes], "option_named_input": nm}
